@@ -1121,6 +1121,36 @@ func cliPrecOf(o OptSet) float64 {
 	return 0
 }
 
+// cliHasKeylessMember: some array of v holds an object member that carries none of the set keys
+func cliHasKeylessMember(v *Val, keys []string) bool {
+	switch v.K {
+	case KArr:
+		for _, e := range v.A {
+			if e.K == KObj {
+				has := false
+				for _, k := range keys {
+					if _, ok := e.O[k]; ok {
+						has = true
+					}
+				}
+				if !has {
+					return true
+				}
+			}
+			if cliHasKeylessMember(e, keys) {
+				return true
+			}
+		}
+	case KObj:
+		for _, e := range v.O {
+			if cliHasKeylessMember(e, keys) {
+				return true
+			}
+		}
+	}
+	return false
+}
+
 // known-finding class of a deviation in the round trip / exit status probes ("" = none applies)
 func cliKnownClass(c *cliCfg, plan cliPlan, a, b *Val, forExit bool) string {
 	if a == nil || b == nil {
@@ -1153,6 +1183,9 @@ func cliKnownClass(c *cliCfg, plan cliPlan, a, b *Val, forExit bool) string {
 		if w := cliAliasWitness(plan.V1, plan.Opts, a, b); w != "" {
 			return "kf KF-C04-alias " + w
 		}
+	}
+	if !forExit && plan.V1 && plan.Opts.Has("S") && plan.Opts.Has("K") && cliHasKeylessMember(a, plan.Opts.KeysOf()) {
+		return "kf KF-C17-keyless v1: a set member carries none of the set keys"
 	}
 	if forExit {
 		ns := []float64{}
